@@ -11,7 +11,7 @@ RULE = (
     "case = one object family at one size: EncodedSequence, StripedSequence, CountMatrix, WeightMatrix, ScoringMatrix, ScoreDistribution, StripedScores "
     "(DNA and protein; widths 0..40 incl. widths below the alphabet size; sequence lengths from the boundary set up to 3000 incl. 0 and L < M; "
     "before and after calculate / scan added look-ahead rows; copies of scored sequences, which are scored again themselves; motifs exactly as long as the sequence). Sequence protocol: len(obj) is the logical length, obj[i] for every "
-    "i in [-len-2, len+1] plus +-2^62 returns the model's element for valid indices and raises IndexError otherwise (never a panic). Buffer protocol: "
+    "i in [-len-2, len+1] plus +-2^31, +-2^32, +-2^62 and both Py_ssize_t extremes returns the model's element for valid indices and raises IndexError otherwise (never a panic). Buffer protocol: "
     "memoryview(obj) ndim / shape / strides / format / itemsize are compared with the logical layout and EVERY element read through the view (via shape and strides "
     "on the raw bytes) must be the logical element; the extent shape x strides must lie inside the buffer reported by a fresh PyObject_GetBuffer; a view taken "
     "before the object is reused for scoring must still point into the object's current storage afterwards (address comparison through the monitor helper; "
@@ -49,7 +49,7 @@ def check_indexing(rep, case, cls, obj, model, wit, same=None):
         return False
     same = same or (lambda a, b: a == b)
     idxs = list(range(-n - 2, n + 2)) if n <= 70 else list(range(-n - 2, -n + 3)) + list(range(-3, 3)) + list(range(n - 3, n + 2)) + [n // 2, -(n // 2)]
-    idxs += [2 ** 62, -(2 ** 62)]
+    idxs += [2 ** 62, -(2 ** 62), 2 ** 63 - 1, -(2 ** 63), -(2 ** 63) + 1, 2 ** 31, -(2 ** 31), 2 ** 32, -(2 ** 32)]  # incl. both Py_ssize_t extremes
     for i in idxs:
         rep.eval()
         ok, v = call(rep, case, "%s[%d]" % (cls, i), lambda: obj[i], wit)
